@@ -261,3 +261,12 @@ def atoi(ctx):
     r = returns(fa)
     want = spec(ctx.repo, 'int(s.replace(",", ""))', {'s': V('s')})
     ctx.eq(R, 'commas-removed', r[-1].value if r else None, want, ctx.where(fa), 'thousands separators are removed before conversion')
+
+
+_run_core = run
+
+
+def run(ctx):
+    _run_core(ctx)
+    from . import refs_misc
+    refs_misc.run_for(ctx, 'C19')
